@@ -128,6 +128,18 @@ func strInSliceFold(str string, slice []string) bool {
 isPtr returns a Boolean value indicative of whether kind
 reflection revealed the presence of a pointer type.
 */
+/*
+isNilPtr returns a Boolean value indicative of whether x is a
+typed nil pointer (a non-nil interface holding a nil pointer).
+*/
+func isNilPtr(x any) bool {
+	if x == nil {
+		return false
+	}
+	v := valOf(x)
+	return v.Kind() == reflect.Ptr && v.IsNil()
+}
+
 func isPtr(t reflect.Type) bool {
 	if t == nil {
 		return false
